@@ -3,10 +3,14 @@ package props
 import (
 	"bytes"
 	"fmt"
+	"strings"
+	"time"
 
+	"verif/internal/conc"
 	"verif/internal/driver"
 	"verif/internal/gen"
 	"verif/internal/model"
+	"verif/internal/sched"
 )
 
 // C06: range visits deliver exactly the requested key range, in order, correctly.
@@ -14,15 +18,15 @@ import (
 func init() {
 	register(&Prop{
 		ID: "C06", Level: "exploration",
-		Rule: "case = (contents of 0..40 items built by a random history incl. deletes and overwrites; comparator in {bytes.Compare, reverse, length-then-lexicographic}; cache state in {never flushed (all cached, dirty), flushed and freshly re-opened (nothing loaded), flushed and evicted k times, mixed after partial key-only/with-value reads}). Inside a case the targets are DERIVED FROM THE CONTENTS: every present key, k+\\x00, a predecessor string of k, a key below the minimum, above the maximum, the empty slice and nil. For every target all six APIs (VisitItemsAscend/Descend, the Ex variants, IterateAscend/Descend) run in both value modes and must deliver exactly the model's range (ascend: key >= target ascending; descend: key < target descending) with the right key, priority and (when requested) value; then EVERY early-stop position 0..len(range) is tried on two of the APIs. Ex depths are compared with the node's true depth from the hook walk + decoder, and with the canonical treap depth when priorities are distinct. The cache state is re-established between targets. evaluations counts visits. Non-trivial = visit of a non-empty range or with an early stop; distinct = distinct (case, target, api, mode, stop).",
+		Rule: "case = (contents of 0..40 items built by a random history incl. deletes and overwrites; comparator in {bytes.Compare, reverse, length-then-lexicographic}; cache state in {never flushed (all cached, dirty), flushed and freshly re-opened (nothing loaded), flushed and evicted k times, mixed after partial key-only/with-value reads}). Inside a case the targets are DERIVED FROM THE CONTENTS: every present key, k+\\x00, a predecessor string of k, a key below the minimum, above the maximum, the empty slice and nil. For every target all six APIs (VisitItemsAscend/Descend, the Ex variants, IterateAscend/Descend) run in both value modes and must deliver exactly the model's range (ascend: key >= target ascending; descend: key < target descending) with the right key, priority and (when requested) value; then EVERY early-stop position 0..len(range) is tried on two of the APIs. Ex depths are compared with the node's true depth from the hook walk + decoder, and with the canonical treap depth when priorities are distinct. The cache state is re-established between targets. Concurrent cases: 2-4 readers run whole and early-stopped visits in both value modes (plus lookups) on a cold file next to a mutator that mutates and evicts, under the deterministic yield-point scheduler (switches at every file call and callback), so that one visit evicts or re-loads an item while another is upgrading it to carry its value; every delivered sequence must be exactly one version's range with the values requested. evaluations counts visits. Non-trivial = visit of a non-empty range or with an early stop; distinct = distinct (case, target, api, mode, stop).",
 		Assumptions: []string{
 			"items handed to the visitor are read inside the callback only; with withValue=false Val is not compared",
 			"comparators are total orders consistent with byte inequality",
 		},
-		NumCases: func(tier string) int { return pick(tier, 160, 6000) },
+		NumCases: func(tier string) int { return pick(tier, 160, 6000) + pick(tier, 800, 30000) },
 		Run:      runC06,
 		Floor: func(tier string, st map[string]int64) string {
-			for _, k := range []string{"c06.visits", "c06.early-stops", "c06.nil-target", "c06.empty-collection-cases", "c06.cmp=rev", "c06.cmp=lenlex", "c06.state=reopened", "c06.state=evicted", "c06.state=mixed", "c06.state=dirty", "visit.true-depths-checked", "visit.depths-checked", "c06.iterator-visits"} {
+			for _, k := range []string{"c06.visits", "c06.early-stops", "c06.nil-target", "c06.empty-collection-cases", "c06.cmp=rev", "c06.cmp=lenlex", "c06.state=reopened", "c06.state=evicted", "c06.state=mixed", "c06.state=dirty", "visit.true-depths-checked", "visit.depths-checked", "c06.iterator-visits", "c06.concurrent-executions"} {
 				if st[k] == 0 {
 					return "no " + k + " observed"
 				}
@@ -36,6 +40,9 @@ func runC06(ctx *Ctx, idx int) Result {
 	seed := CaseSeed(ctx.Seed, "C06", idx)
 	r := gen.New(seed)
 	SeedGlobalRand(seed)
+	if idx >= pick(ctx.Tier, 160, 6000) {
+		return runC06Concurrent(ctx, idx, r)
+	}
 	state := idx % 4 // 0 dirty, 1 reopened, 2 evicted, 3 mixed
 	cmp := []model.Cmp{model.CmpBytes, model.CmpRev, model.CmpLenLex}[(idx/4)%3]
 	size := r.Intn(41)
@@ -178,4 +185,48 @@ func runC06(ctx *Ctx, idx int) Result {
 	}
 	return Result{Hash: gen.Mix(uint64(idx), uint64(visits)), NonTrivial: nontriv > 0, Viol: v,
 		Sample: map[string]interface{}{"index": idx, "items": len(m.Items), "comparator": string(cmp), "cache_state": stateName, "targets": len(targets), "visits": visits}}
+}
+
+// runC06Concurrent: visits racing with other visits' evictions / re-loads of the same items.
+func runC06Concurrent(ctx *Ctx, idx int, r *gen.R) Result {
+	p := c05Program(r, false, 0)
+	p.MemOnly = false
+	p.Cold = 1 + r.Intn(2)
+	p.Flusher = nil
+	if idx%2 == 0 { // half of the cases: nothing but eviction next to the readers
+		var ms []conc.Step
+		for i := 0; i < len(p.Mutator) && i < 10; i++ {
+			ms = append(ms, conc.Step{K: conc.MEvict, Coll: p.Mutator[i].Coll})
+		}
+		p.Mutator = ms
+	}
+	for i := range p.Readers {
+		for j := range p.Readers[i] {
+			st := &p.Readers[i][j]
+			if st.K == conc.RSnapshot || st.K == conc.RTotals {
+				st.K = conc.RVisit
+				st.Key = nil
+				st.Stop = -1
+			}
+			if st.K == conc.RVisit && j%2 == 0 {
+				st.WithVal = true
+			}
+		}
+	}
+	for len(p.Readers) < 3 {
+		p.Readers = append(p.Readers, append([]conc.Step{}, p.Readers[0]...))
+	}
+	s := sched.New(&sched.Random{Next: r.Intn, Stick: []int{0, 30, 60}[r.Intn(3)]})
+	h, _ := conc.Run(p, conc.Mode{Sched: s})
+	fs, st, _ := conc.Check(p, h, 30*time.Second)
+	ctx.Stats["c06.concurrent-executions"]++
+	ctx.Stats["c06.visits"] += int64(st.ReaderOps)
+	ctx.Stats["evaluations.extra"]++
+	ctx.Stats["nontrivial.extra"]++
+	var v *Viol
+	if len(fs) > 0 {
+		v = &Viol{Sig: "C06/concurrent/" + strings.TrimPrefix(fs[0].Sig, "C05/"), Detail: "[concurrent visits, deterministic schedule] " + fs[0].Detail}
+	}
+	return Result{Hash: s.Hash(), NonTrivial: true, Viol: v,
+		Sample: map[string]interface{}{"index": idx, "mode": "concurrent visits", "readers": len(p.Readers), "decisions": len(s.Decisions)}}
 }
